@@ -34,7 +34,7 @@ CODE2 = b"\x30\x21"      # H and V -> CID 1125
 C1, C2 = 0x41, 0x42      # the two single-byte codes shown with F1
 CID_H1, CID_2 = 634, 1125   # H.decode(CODE1), H.decode(CODE2) = V.decode(CODE2); token_table() checks them
 
-WIDTHS = {"dA": (500, 600), "dB": (700, 600), "dC": (500, 800)}
+WIDTHS = {"dA": (500, 600), "dB": (700, 600), "dC": (550, 800)}
 CMAPNAME = {"dA": "H", "dB": "V", "dC": "H"}
 DW = {"dA": 1000, "dB": 1000, "dC": 400}
 CSN = {"dA": 3, "dB": 1, "dC": 0}
@@ -107,6 +107,9 @@ def objects(d):
         cid["W2"] = [7887, [-500, 500, 880]]
     elif d == "dA":
         cid["W"] = [634, [Ref(15), 1000]]
+    else:
+        # IndirectW: as in dA the width of CID 634 is the indirect element 15 0 R - whose value differs from dA's
+        cid["W"] = [634, [Ref(15)]]
     objs[9] = cid
     objs[10] = {"Type": Name("FontDescriptor"), "FontName": Name("VerifSans"), "Flags": 32, "FontBBox": [0, -200, 1000, 800],
                 "ItalicAngle": 0, "Ascent": 800, "Descent": -200, "CapHeight": 700, "StemV": 80, "MissingWidth": 333}
